@@ -672,7 +672,7 @@ def r01_12(run, model):
                        f"{len(rets)} return(s) in front of the first use of `{nm}`",
                        witness="two different closures `|| a + 1` and `|| b * 2` bound to the same name in one function: the second is answered "
                                "from the first one's record, its body is never lifted and calling it runs the first closure")
-    run.floor("functions of the rewriting passes that are handed a sub-term", n, 20)
+    run.floor("functions of the rewriting passes that are handed a sub-term", n, 39)
 
 
 def run(run, model):
